@@ -165,6 +165,42 @@ theorem benign_not_listed {e : String} (h : Benign e) :
   · intro hm
     exact key _ fuel_not_benignB (List.mem_append_right _ hm)
 
+/-- a benign failure with the message `t` (not a sink / meta message) is one of the two
+context-dependent ones, and then it is tolerated -/
+theorem benign_eq_cases {t : String} (hs : infixL "@sink: ".toList t.toList = false)
+    (hm : "meta-extract@encoding.rs: ".toList.isPrefixOf t.toList = false)
+    (hu : t ≠ "subtendril-utf8@encoding.rs: subtendril is not valid UTF-8") {e : String} (h : Benign e)
+    (he : e = t) : (t = ptcFuelMsg ∧ al.fuel) ∨ (t = textProtoMsg ∧ al.text) := by
+  cases h with
+  | sinkMut d op x _ _ =>
+    exfalso
+    have : infixL "@sink: ".toList (errClass x ++ "@sink: " ++ x).toList = true := by
+      rw [String.toList_append, String.toList_append, List.append_assoc]
+      exact infixL_append _ _ _
+    rw [he, hs] at this; cases this
+  | ptcFuel ha => exact Or.inl ⟨he.symm, ha⟩
+  | textProto ha => exact Or.inr ⟨he.symm, ha⟩
+  | metaExtract m =>
+    exfalso
+    have : "meta-extract@encoding.rs: ".toList.isPrefixOf ("meta-extract@encoding.rs: " ++ m).toList = true := by
+      rw [String.toList_append]; exact isPrefixOf_append _ _
+    rw [he, hm] at this; cases this
+  | metaUtf8 => exact absurd he.symm hu
+
+/-- when the Text-mode `unreachable!` is not tolerated, no benign failure is it -/
+theorem benign_ne_textProto (hna : ¬ al.text) {e : String} (h : Benign e) : e ≠ textProtoMsg := by
+  intro he
+  rcases benign_eq_cases (t := textProtoMsg) (by decide) (by decide) (by decide) h he with ⟨h1, _⟩ | ⟨_, h2⟩
+  · exact absurd h1 (by decide)
+  · exact hna h2
+
+/-- when running out of the fuel of `process_to_completion` is not tolerated, no benign failure is it -/
+theorem benign_ne_ptcFuel (hna : ¬ al.fuel) {e : String} (h : Benign e) : e ≠ ptcFuelMsg := by
+  intro he
+  rcases benign_eq_cases (t := ptcFuelMsg) (by decide) (by decide) (by decide) h he with ⟨_, h2⟩ | ⟨h1, _⟩
+  · exact hna h2
+  · exact absurd h1 (by decide)
+
 /-- the one message of a tree-builder panic site that IS benign -/
 theorem textProtoMsg_eq : textProtoMsg = panicMsg "unreachable" "rules.rs:1037" "impossible case in Text mode" := by
   decide
